@@ -1,3 +1,5 @@
+//go:build verif_all || verif_c13
+
 package main
 
 import (
